@@ -32,6 +32,10 @@ class CallMixin(object):
                 return self.eval_snapshot(f.id, n.args[0], self.concrete_int(self.eval(n.args[1])) if len(n.args) > 1 else 0)
             if f.id == 'implies':
                 a = self.spec_truth(n.args[0])
+                if a.is_const() and not a.value():
+                    return tm.TRUE
+                if not a.is_const() and not getattr(self, 'in_quant', 0) and not self._feasible(a):
+                    return tm.TRUE          # the antecedent contradicts the path condition: vacuous on this path
                 mark = len(self.pc)
                 self.pc.append(a)
                 try:
